@@ -460,11 +460,13 @@ def run(ctx):
                       {"part": "drop", "desc": d, "variant": v})
     if harness:
         raise RuntimeError(f"{max(n_harness, len(harness))} harness errors, first: {harness[0]}")
+    from checks import c14b
+    p3 = c14b.run_part(ctx)
     samples = [{"type": show(d), "oracle": str(classify(d))} for d in descs[::max(1, len(descs) // 6)][:6]]
     samples += [{"program": program(tys[len(tys) // 2], "branch")}] if tys else []
     return {
-        "evaluations": n + len(items),
-        "distinct_nontrivial": nontrivial + len(items),
+        "evaluations": n + len(items) + p3["p3_programs"],
+        "distinct_nontrivial": nontrivial + len(items) + p3["p3_programs"],
         "rule": "part 1: composite types whose oracle class is not (copyable, droppable); "
                 "part 2: every (affine closed type, program variant) compiled and validated",
         "samples": samples,
@@ -480,10 +482,14 @@ def run(ctx):
         "p2_skipped_owned_copyable_func_input_unwritable": sk_unwr,
         "p2_drop_histogram": drop_hist,
         "harness_errors": n_harness + len(harness),
+        **p3,
     }
 
 
 def replay(ctx, item):
+    if item["part"] == "generic-drop":
+        from checks import c14b
+        return c14b.replay(ctx, item)
     from vlib import tyuniverse as U
     U.env()
     desc = U.norm(item["desc"])
